@@ -38,6 +38,8 @@ pub struct TaskRec {
     pub out: Option<TaskOut>,
     /// index of a task that has to complete before this one is started
     pub after: Option<usize>,
+    /// flush_meta returned Ok: how many of the requests it issued itself no completed fsync covers
+    pub uncovered: usize,
 }
 
 pub struct SchedResult {
@@ -99,7 +101,7 @@ pub fn run_batch(
     // policy 2: one kind of backend request is starved: it completes only when nothing else
     // can happen (late hole punches, late syncs, late reads, late writes)
     let starve: Option<crate::sim::Kind> = if policy == 2 {
-        Some(*rng.pick(&[crate::sim::Kind::Punch, crate::sim::Kind::Punch, crate::sim::Kind::Write, crate::sim::Kind::Sync, crate::sim::Kind::Read]))
+        Some(*rng.pick(&[crate::sim::Kind::Punch, crate::sim::Kind::Punch, crate::sim::Kind::Write, crate::sim::Kind::Sync, crate::sim::Kind::Read, crate::sim::Kind::Read]))
     } else {
         None
     };
@@ -110,7 +112,7 @@ pub fn run_batch(
     for (op, after) in ops {
         futs.push(Some(Box::pin(run_op(dev, op.clone()))));
         flags.push(Arc::new(Flag(AtomicBool::new(true))));
-        recs.push(TaskRec { op: op.clone(), inv: usize::MAX, resp: usize::MAX, out: None, after: *after });
+        recs.push(TaskRec { op: op.clone(), inv: usize::MAX, resp: usize::MAX, out: None, after: *after, uncovered: 0 });
     }
     // PCT-like: fixed random priorities with a few priority change points
     let mut prio: Vec<u64> = (0..n).map(|_| rng.next() >> 8).collect();
@@ -124,6 +126,7 @@ pub fn run_batch(
     for f in files {
         f.0.borrow_mut().gated = true;
     }
+    let seq0 = files[0].0.borrow().seq;
     loop {
         let eligible = |i: usize, recs: &Vec<TaskRec>| -> bool {
             recs[i].out.is_none()
@@ -188,6 +191,27 @@ pub fn run_batch(
             let r = std::panic::catch_unwind(std::panic::AssertUnwindSafe(|| fut.as_mut().poll(&mut cx)));
             match r {
                 Ok(Poll::Ready(out)) => {
+                    if matches!(recs[i].op, Op::Flush) && out.res == "ok" {
+                        // flush_meta() returned Ok: every request this call issued is covered by an fsync that
+                        // was issued after the request completed (and has completed itself)
+                        let st = files[0].0.borrow();
+                        let syncs: Vec<usize> = st
+                            .log
+                            .iter()
+                            .filter(|r| r.kind == crate::sim::Kind::Sync && !r.failed && r.done_seq.is_some())
+                            .map(|r| r.issue_seq)
+                            .collect();
+                        recs[i].uncovered = st
+                            .log
+                            .iter()
+                            .filter(|r| r.issue_seq >= seq0 && r.op == i && !r.failed)
+                            .filter(|r| r.kind == crate::sim::Kind::Write || r.kind == crate::sim::Kind::Punch)
+                            .filter(|r| match r.done_seq {
+                                Some(d) => !syncs.iter().any(|&s| s > d),
+                                None => true,
+                            })
+                            .count();
+                    }
                     recs[i].out = Some(out);
                     recs[i].resp = step;
                     futs[i] = None;
@@ -246,6 +270,52 @@ pub fn gen_conc_case(seed: u64, id: usize, kind: &str) -> (Case, Vec<Vec<(Op, Op
     let nb = rng.range(1, 4) as usize;
     let mut batches = Vec::new();
     let mut k = 0u64;
+    // scenario templates (a quarter of the cases): operations that are only dangerous in one
+    // particular order, with the random batches after them
+    if vs >= 8 * cs && rng.chance(1, 4) {
+        let x = rng.below(vs / cs - 4) * cs;
+        let y = (x + cs * rng.range(2, 3)).min(vs - cs);
+        let mut tok = |k: &mut u64| {
+            *k += 1;
+            *k << 20
+        };
+        batches.push(vec![(Op::Write { off: x, len: cs, tok: tok(&mut k) }, None)]);
+        match rng.below(4) {
+            3 => {
+                // a flush of freshly dirtied metadata next to fsyncs of other callers
+                batches.push(vec![(Op::Flush, None), (Op::Fsync, None), (Op::Fsync, None), (Op::Write { off: y, len: bs, tok: tok(&mut k) }, None)]);
+            }
+            0 => {
+                // cold caches, then a discard next to flushes (metadata loads inside the discard)
+                batches.push(vec![(Op::Shrink, None)]);
+                // (the flushes start when the read, which needs a metadata load as well, is done)
+                batches.push(vec![
+                    (Op::Discard { off: x, len: cs }, None),
+                    (Op::Read { off: y, len: bs }, None),
+                    (Op::Flush, Some(1)),
+                    (Op::Flush, Some(1)),
+                ]);
+            }
+            1 => {
+                // a read in flight across a discard of its cluster and a later allocating write
+                batches.push(vec![
+                    (Op::Read { off: x, len: cs }, None),
+                    (Op::Discard { off: x, len: cs }, None),
+                    (Op::Write { off: y, len: cs, tok: tok(&mut k) }, Some(1)),
+                    (Op::Read { off: x, len: bs }, Some(2)),
+                ]);
+            }
+            _ => {
+                // writes into one fresh cluster next to a flush
+                batches.push(vec![
+                    (Op::Write { off: y, len: bs, tok: tok(&mut k) }, None),
+                    (Op::Write { off: y + cs - bs, len: bs, tok: tok(&mut k) }, None),
+                    (Op::Flush, None),
+                    (Op::Read { off: y, len: cs }, None),
+                ]);
+            }
+        }
+    }
     // a few hot regions per case: later batches discard / rewrite what earlier ones allocated
     let hot: Vec<u64> = (0..rng.range(1, 3)).map(|_| rng.below(vs / cs + 1) * cs).collect();
     for _ in 0..nb {
@@ -287,12 +357,14 @@ pub fn gen_conc_case(seed: u64, id: usize, kind: &str) -> (Case, Vec<Vec<(Op, Op
                 Op::Read { off, len }
             } else if r < 83 {
                 Op::Discard { off: off / cs * cs, len: cs * rng.range(1, 2) }
-            } else if r < 94 {
+            } else if r < 91 {
                 Op::Flush
+            } else if r < 95 {
+                Op::Fsync
             } else {
                 Op::Shrink
             };
-            let after = if t > 0 && rng.chance(1, 4) { Some(rng.below(t as u64) as usize) } else { None };
+            let after = if t > 0 && rng.chance(1, 3) { Some(rng.below(t as u64) as usize) } else { None };
             ops.push((op, after));
         }
         batches.push(ops);
